@@ -49,9 +49,47 @@ acquisition of `Broadcast` (hook `broadcaster.broadcast.locked` ↦ `Obs.bacq`),
 never taken silently. -/
 def silent (hooked : Bool) (l : Label) : Bool := l.internal && !(hooked && l.isAcquire)
 
+/-- Internal labels the acceptor takes *eagerly*: whenever one of them is enabled in a state, the
+state is replaced by its successor (and so on, `settle`).  They are the steps that can only enable,
+never disable, other steps and whose effect no observation can tell from "it happened later"
+(close the exit channel on the way out; remove oneself from the list when the lock is free;
+close(closeCh) after the CAS; Close passing the free lock; taking the next value from the buffer;
+releasing the lock at the end of a fan-out; stepping over an entry that is no longer in the list).
+Dropping the predecessor states cannot make the acceptor accept more (`accepts_sound` covers every
+state it keeps); that it does not make it reject real traces is argued in design/C11.md and
+exercised on every run (the harness cross-checks against the acceptor without it). -/
+def Label.eager : Label → Bool
+  | .fwdCloseExit _ | .fwdRemove _ | .closeChClose | .closePass | .fwdTake _ | .bcFinish
+  | .bcSkipGone => true
+  | _ => false
+
+/-- The first enabled eager label of `s`, if any. -/
+def eagerLabel (v : Variant) (hooked : Bool) (s : State) : Option Label :=
+  ((tauCandidates s).filter (silent hooked)).find? (fun l => l.eager && (step v s l).isSome)
+
+/-- Apply eager labels (normalising after each) until none is enabled. -/
+def settle (v : Variant) (reduce hooked eager : Bool) : Nat → State → State
+  | 0, s => s
+  | fuel + 1, s =>
+    if eager then
+      match eagerLabel v hooked s with
+      | some l =>
+        match step v s l with
+        | some s' => settle v reduce hooked eager fuel (norm reduce s')
+        | none => s
+      | none => s
+    else s
+
+def settleFuel : Nat := 10000
+
+/-- Canonical form of a successor: normalise, then settle. -/
+def canon (v : Variant) (reduce hooked eager : Bool) (s : State) : State :=
+  settle v reduce hooked eager settleFuel (norm reduce s)
+
 /-- Normalised internal successors of `s`. -/
-def tauSuccs (v : Variant) (reduce hooked : Bool) (s : State) : List State :=
-  ((tauCandidates s).filter (silent hooked)).filterMap (fun l => (step v s l).map (norm reduce))
+def tauSuccs (v : Variant) (reduce hooked eager : Bool) (s : State) : List State :=
+  ((tauCandidates s).filter (silent hooked)).filterMap
+    (fun l => (step v s l).map (canon v reduce hooked eager))
 
 /-- Executions from `init` with their observable projection: `Exec v hooked tr ls s` — the labels
 `ls` lead from `init` to `s`; every label is either silent or is one of the labels the next
@@ -67,40 +105,41 @@ inductive Exec (v : Variant) (hooked : Bool) : List Obs → List Label → State
 
 /-- τ-closure by work list.  `fuel` bounds the number of expansions; `cap` stops the exploration
 when the set grows beyond it (the driver then answers `overflow`). -/
-def closureAux (v : Variant) (reduce hooked : Bool) (cap : Nat) : Nat → List State → Acc → Acc
+def closureAux (v : Variant) (reduce hooked eager : Bool) (cap : Nat) : Nat → List State → Acc → Acc
   | 0, _, acc => acc
   | _ + 1, [], acc => acc
   | fuel + 1, s :: rest, acc =>
     if acc.size > cap then acc
     else
-      let p := (tauSuccs v reduce hooked s).foldl addNew (rest, acc)
-      closureAux v reduce hooked cap fuel p.1 p.2
+      let p := (tauSuccs v reduce hooked eager s).foldl addNew (rest, acc)
+      closureAux v reduce hooked eager cap fuel p.1 p.2
 
 def fuel0 : Nat := 100000000
 
-def closeSet (v : Variant) (reduce hooked : Bool) (cap : Nat) (xs : List State) : Acc :=
+def closeSet (v : Variant) (reduce hooked eager : Bool) (cap : Nat) (xs : List State) : Acc :=
   let p := xs.foldl addNew ([], Acc.empty)
-  closureAux v reduce hooked cap fuel0 p.1 p.2
+  closureAux v reduce hooked eager cap fuel0 p.1 p.2
 
 /-- Normalised direct successors of `s` for one observed event. -/
-def obsSuccs (v : Variant) (reduce : Bool) (s : State) (o : Obs) : List State :=
-  (obsLabels s o).filterMap (fun l => (step v s l).map (norm reduce))
+def obsSuccs (v : Variant) (reduce hooked eager : Bool) (s : State) (o : Obs) : List State :=
+  (obsLabels s o).filterMap (fun l => (step v s l).map (canon v reduce hooked eager))
 
 /-- The acceptor's transition: successors for the event, then τ-closure. -/
-def acceptStep (v : Variant) (reduce hooked : Bool) (cap : Nat) (cur : List State) (o : Obs) : Acc :=
-  closeSet v reduce hooked cap (cur.flatMap (fun s => obsSuccs v reduce s o))
+def acceptStep (v : Variant) (reduce hooked eager : Bool) (cap : Nat) (cur : List State) (o : Obs) :
+    Acc :=
+  closeSet v reduce hooked eager cap (cur.flatMap (fun s => obsSuccs v reduce hooked eager s o))
 
-def startSet (v : Variant) (reduce hooked : Bool) (cap : Nat) : Acc :=
-  closeSet v reduce hooked cap [norm reduce init]
+def startSet (v : Variant) (reduce hooked eager : Bool) (cap : Nat) : Acc :=
+  closeSet v reduce hooked eager cap [norm reduce init]
 
 /-- States compatible with a whole trace. -/
-def acceptRun (v : Variant) (reduce hooked : Bool) (cap : Nat) (cur : List State) (tr : List Obs) :
-    List State :=
-  tr.foldl (fun c o => (acceptStep v reduce hooked cap c o).list) cur
+def acceptRun (v : Variant) (reduce hooked eager : Bool) (cap : Nat) (cur : List State)
+    (tr : List Obs) : List State :=
+  tr.foldl (fun c o => (acceptStep v reduce hooked eager cap c o).list) cur
 
 /-- The trace is accepted iff some state is compatible with it. -/
-def accepts (v : Variant) (reduce hooked : Bool) (cap : Nat) (tr : List Obs) : Bool :=
-  !(acceptRun v reduce hooked cap (startSet v reduce hooked cap).list tr).isEmpty
+def accepts (v : Variant) (reduce hooked eager : Bool) (cap : Nat) (tr : List Obs) : Bool :=
+  !(acceptRun v reduce hooked eager cap (startSet v reduce hooked eager cap).list tr).isEmpty
 
 /-- A state of the set in which some call is pending and no internal step is enabled. -/
 def pendingCall (s : State) : Bool :=
